@@ -324,19 +324,161 @@ def _window_total(r, k, f, loop):
     clamps = [n for n in ast.walk(wl) if isinstance(n, ast.If) and any(isinstance(s, ast.Assign) and norm(s.targets[0]) == x and eval_expr(s.value, {}).equals(Rat.sym(total) - Rat.sym(counter)) for s in n.body)]
     ok = False
     for c in clamps:
-        ct = c.test
-        if isinstance(ct, ast.Compare) and len(ct.ops) == 1 and isinstance(ct.ops[0], (ast.Gt, ast.GtE)) and norm(ct.comparators[0]) == total and c.lineno < apps[0].lineno:
-            ok = True
+        # the overshoot test may be one disjunct of the clamp condition (when the branch is not taken
+        # every disjunct is false, in particular the overshoot)
+        for ct in c.test.values if isinstance(c.test, ast.BoolOp) and isinstance(c.test.op, ast.Or) else [c.test]:
+            if isinstance(ct, ast.Compare) and len(ct.ops) == 1 and isinstance(ct.ops[0], (ast.Gt, ast.GtE)) and norm(ct.comparators[0]) == total and c.lineno < apps[0].lineno:
+                ok = True
     r.inst({"stager": k.name, "window clamp": [norm(c.test) for c in clamps]})
     if not ok:
         r.violate(PROP, f"{k.name}.stages:window-loop:no-clamp", f"the last window is not clamped to the remaining iterations ({total} - {counter}): the windows overshoot the slow-stage length", node=wl, file=f.file)
         return None, None
+    _window_progress(r, k, f, wl, x, counter, total, incs[0])
     # counter starts at 0
     init = [n for n in ast.walk(f.node) if isinstance(n, ast.Assign) and norm(n.targets[0]) == counter and n.lineno < wl.lineno]
     if not init or norm(init[-1].value) != "0":
         r.violate(PROP, f"{k.name}.stages:window-loop:counter-init", "the window iteration counter does not start at 0", node=wl, file=f.file)
         return None, None
     return Rat.sym(total), None
+
+
+def _guard_facts(k):
+    """Lower bounds on constructor parameters / the attributes they are stored in, established by
+    `if <param> < c: raise ...` (or `<= c` for int-annotated parameters) guards in __init__."""
+    init = k.resolve("__init__")
+    facts = {}
+    if init is None:
+        return facts
+    ann = {a.arg: norm(a.annotation) if a.annotation is not None else "" for a in init.node.args.args + init.node.args.kwonlyargs}
+    for n in ast.walk(init.node):
+        if not (isinstance(n, ast.If) and n.body and isinstance(n.body[0], ast.Raise)):
+            continue
+        tests = n.test.values if isinstance(n.test, ast.BoolOp) and isinstance(n.test.op, ast.Or) else [n.test]
+        for t in tests:
+            if isinstance(t, ast.Compare) and len(t.ops) == 1 and isinstance(t.left, ast.Name) and isinstance(t.comparators[0], ast.Constant) and isinstance(t.comparators[0].value, (int, float)):
+                c = t.comparators[0].value
+                if isinstance(t.ops[0], ast.Lt):
+                    facts[t.left.id] = max(facts.get(t.left.id, -math.inf), c)
+                elif isinstance(t.ops[0], ast.LtE) and ann.get(t.left.id) == "int" and float(c).is_integer():
+                    facts[t.left.id] = max(facts.get(t.left.id, -math.inf), c + 1)
+    out = dict(facts)
+    stores = {}
+    for kk in k.mro:
+        for m in kk.methods.values():
+            for n in ast.walk(m.node):
+                if isinstance(n, (ast.Assign, ast.AugAssign, ast.AnnAssign)):
+                    for t in n.targets if isinstance(n, ast.Assign) else [n.target]:
+                        if isinstance(t, ast.Attribute) and isinstance(t.value, ast.Name) and t.value.id == "self":
+                            stores.setdefault(t.attr, []).append((m, n))
+    for attr, sts in stores.items():
+        if len(sts) == 1 and sts[0][0].name == "__init__" and isinstance(sts[0][1], ast.Assign) and isinstance(sts[0][1].value, ast.Name) and sts[0][1].value.id in facts:
+            out[f"self.{attr}"] = facts[sts[0][1].value.id]
+    return out
+
+
+def _lower_bound(e, facts, defs, depth=0):
+    """A sound lower bound of a numeric expression (or -inf)."""
+    if depth > 8 or e is None:
+        return -math.inf
+    if isinstance(e, ast.Constant) and isinstance(e.value, (int, float)) and not isinstance(e.value, bool):
+        return e.value
+    t = norm(e)
+    if t in facts:
+        return facts[t]
+    if isinstance(e, ast.Name):
+        if e.id in defs:
+            return min(_lower_bound(v, facts, {a: b for a, b in defs.items() if a != e.id}, depth + 1) for v in defs[e.id])
+        return -math.inf
+    if isinstance(e, ast.Call):
+        cn = norm(e.func)
+        if cn == "max" and e.args and not e.keywords:
+            return max(_lower_bound(a, facts, defs, depth + 1) for a in e.args)
+        if cn == "min" and e.args and not e.keywords:
+            return min(_lower_bound(a, facts, defs, depth + 1) for a in e.args)
+        if cn in ("int", "math.floor") and len(e.args) == 1:
+            lb = _lower_bound(e.args[0], facts, defs, depth + 1)
+            return math.floor(lb) if lb >= 0 else -math.inf
+        if cn in ("math.ceil", "round") and len(e.args) == 1:
+            lb = _lower_bound(e.args[0], facts, defs, depth + 1)
+            return math.floor(lb) if lb >= 0 else -math.inf
+        return -math.inf
+    if isinstance(e, ast.BinOp):
+        a, b = _lower_bound(e.left, facts, defs, depth + 1), _lower_bound(e.right, facts, defs, depth + 1)
+        if isinstance(e.op, ast.Add):
+            return a + b
+        if isinstance(e.op, ast.Mult):
+            return a * b if a >= 0 and b >= 0 else -math.inf
+        return -math.inf
+    return -math.inf
+
+
+def _implies_at_least_one(test, x):
+    """`test` being false implies x >= 1: the test is (a disjunction containing) `x < 1`, `x <= 0`,
+    `not x`, `x == 0` together with ... - only the order forms are accepted."""
+    parts = test.values if isinstance(test, ast.BoolOp) and isinstance(test.op, ast.Or) else [test]
+    for t in parts:
+        if isinstance(t, ast.Compare) and len(t.ops) == 1 and isinstance(t.comparators[0], ast.Constant):
+            c = t.comparators[0].value
+            if norm(t.left) == x and ((isinstance(t.ops[0], ast.Lt) and c >= 1) or (isinstance(t.ops[0], ast.LtE) and c >= 0)):
+                return True
+        if isinstance(t, ast.Compare) and len(t.ops) == 1 and isinstance(t.left, ast.Constant) and norm(t.comparators[0]) == x:
+            c = t.left.value
+            if (isinstance(t.ops[0], ast.Gt) and c >= 1) or (isinstance(t.ops[0], ast.GtE) and c >= 0):
+                return True
+    return False
+
+
+def _window_progress(r, k, f, wl, x, counter, total, inc):
+    """Termination of the window loop: on every path through the body the counter advances by at
+    least one iteration.  The loop condition gives total - counter >= 1 (integers); any other value
+    of the window length needs a lower bound of 1, from the test of the branch that was not taken
+    or from the definitions of the length (constructor guards, max(1, .))."""
+    facts = _guard_facts(k)
+    defs = {}
+    for n in ast.walk(f.node):
+        if isinstance(n, ast.Assign) and len(n.targets) == 1 and isinstance(n.targets[0], ast.Name):
+            defs.setdefault(n.targets[0].id, []).append(n.value)
+    pre = [s for s in wl.body if s.lineno < inc.lineno]
+    # value of x at the increment: last assignment to x before it on each path
+    paths = [("entry", None, None)]  # (how x was bound, binding expr, condition under which this path is taken)
+    for s in pre:
+        if isinstance(s, ast.Assign) and norm(s.targets[0]) == x:
+            paths = [("assigned", s.value, None)]
+        elif isinstance(s, ast.If):
+            arms = []
+            for arm, taken in ((s.body, True), (s.orelse, False)):
+                asg = [a for a in arm if isinstance(a, ast.Assign) and norm(a.targets[0]) == x]
+                if asg:
+                    arms.append(("assigned", asg[-1].value, None))
+                else:
+                    arms += [(how, val, (s.test, taken)) if how == "entry" else (how, val, cnd) for how, val, cnd in paths]
+            paths = arms
+        elif any(isinstance(a, (ast.Assign, ast.AugAssign)) and norm(a.targets[0] if isinstance(a, ast.Assign) else a.target) == x for a in ast.walk(s)):
+            raise AnalysisError(f"{k.name}.stages: window length bound in a statement form outside the accepted ones: {norm(s)[:60]}")
+    bad = []
+    for how, val, cnd in paths:
+        if how == "assigned":
+            try:
+                is_rem = eval_expr(val, {}).equals(Rat.sym(total) - Rat.sym(counter))
+            except AnalysisError:
+                is_rem = False
+            lb = 1 if is_rem else _lower_bound(val, facts, defs)
+        else:
+            # x as it entered the iteration: every definition outside `pre`
+            # induction over the iterations: the value before the loop needs the bound outright, the
+            # update inside the loop may assume it for the length just used
+            outside = [n for n in ast.walk(f.node) if isinstance(n, ast.Assign) and len(n.targets) == 1 and norm(n.targets[0]) == x and not any(n is a for st in pre for a in ast.walk(st))]
+            in_loop = {id(a) for a in ast.walk(wl)}
+            dx = {a: b for a, b in defs.items() if a != x}
+            lb = min((_lower_bound(n.value, {**facts, x: 1} if id(n) in in_loop else facts, dx) for n in outside), default=-math.inf)
+            if cnd is not None and not cnd[1] and _implies_at_least_one(cnd[0], x):
+                lb = max(lb, 1)
+        r.inst({"stager": k.name, "window progress path": how, "value": norm(val) if val is not None else f"{x} from the previous iteration", "lower bound": lb if lb != -math.inf else "-inf"})
+        if lb < 1:
+            bad.append((how, val))
+    if bad:
+        srcs = sorted({norm(v) for n in ast.walk(f.node) if isinstance(n, ast.Assign) and len(n.targets) == 1 and norm(n.targets[0]) == x for v in [n.value]})
+        r.violate(PROP, f"{k.name}.stages:window-loop:no-progress", f"the window loop advances `{counter}` by `{x}`, which has no lower bound of 1 on the path where the clamp is not taken (its values: {srcs}; no constructor guard, no max(1, .), no `{x} < 1` test): with an initial window of 0 iterations, or a multiplier below 1 once int() rounds a window down to 0, `{counter}` stops advancing and stages() never returns", node=wl, file=f.file)
 
 
 def _remainder_nonneg(r, k, f, n_warm):
